@@ -409,6 +409,13 @@ fn read_file(path: &Path) -> Option<String> {
     std::fs::read_to_string(path).ok()
 }
 
+/// Verification seam: the crate-private cpulist parser, re-exported for the
+/// external exhaustive checker.
+#[cfg(feature = "verif")]
+pub fn verif_parse_cpulist(s: &str) -> Vec<usize> {
+    parse_cpulist(s)
+}
+
 /// Parse a kernel cpulist such as `"0-3,8,10-11"`.
 pub(crate) fn parse_cpulist(s: &str) -> Vec<usize> {
     let mut out = Vec::new();
